@@ -296,7 +296,7 @@ def float_geobox(rng, Affine, GeoBox, kind):
         # off-diagonal terms anywhere in 1e-14 .. 1e-4: small pixel sizes x small angles, on large shapes,
         # so that a label-based (rotation-less) recovery would be off by more than 0.01 px
         ny, nx = rng.choice([600, 1500, 4000]), rng.choice([800, 2500, 5000])
-        r = rng.choice([2e-6, 1e-5, 2.5e-4, 0.3, 30])
+        r = rng.choice([2e-6, 1e-5, 2.5e-4]) if crs == "EPSG:4326" else rng.choice([0.05, 0.3, 30])
         off = 10 ** rng.uniform(-14, -4)
         ang = min(off / r, 0.3)
         if rng.random() < 0.5:
@@ -468,7 +468,9 @@ def roundtrip_eq_oracle(R: Run, g, xx, case, exact):
         ok = r == type(g)(g.shape, type(A)(A.a, 0, A.c, 0, A.e, A.f), g.crs)
     else:
         px = max(abs(v) for v in tuple(g.affine)[:2] + tuple(g.affine)[3:5]) or 1.0
-        tol_lin = 1e-9 * px
+        # labels are doubles: the pixel size read back from them is quantised by the ulp of the coordinates
+        ulp = max(abs(g.affine.c), abs(g.affine.f), px * max(g.shape)) * 2.0 ** -52
+        tol_lin = 1e-9 * px + 8 * ulp / max(1, min(g.shape) - 1)
         tol_off = 1e-9 * max(abs(g.affine.c), abs(g.affine.f), px * max(g.shape), 1.0)
         A, B = tuple(g.affine)[:6], tuple(r.affine)[:6]
         ok = (tuple(r.shape) == tuple(g.shape) and r.crs == g.crs
